@@ -14,6 +14,7 @@ EXTRA = {  # additional checks expected to notice a change that was written agai
     'C02-a': ['C03'], 'C02-b': ['C12'], 'C04-a': ['C08'], 'C05-a': ['C08'], 'C07-b': ['C11'], 'C08-a': [], 'C08-b': [],
     'C09-b': [], 'C10-b': [], 'C12-a': ['C02'], 'C20-b': ['C08'], 'C11-a': [], 'C05-c': ['C04', 'C02'], 'C11-c': ['C08'],
     'C15-d': ['C08'], 'C16-d': ['C08'], 'C08-c': ['C20'], 'C07-d': ['C11'], 'C18-d': ['C12'], 'C02-c': ['C05'], 'C02-d': ['C15'],
+    'C02-f': ['C08'], 'C03-f': ['C02'], 'C04-f': ['C11'], 'C05-e': ['C04'], 'C05-f': ['C02'],
 }
 
 
@@ -28,7 +29,7 @@ def main():
         i = args.index('--tier')
         tier = args[i + 1]
         del args[i:i + 2]
-    ids = args or sorted(d for d in os.listdir(f'{ROOT}/seeded') if os.path.isdir(f'{ROOT}/seeded/{d}'))
+    ids = args or sorted(d for d in os.listdir(f'{ROOT}/seeded') if os.path.isdir(f'{ROOT}/seeded/{d}') and not d.startswith('_'))
     head = sh('git -C /repo rev-parse --short HEAD').stdout.strip()
     rows = []
     os.makedirs('/tmp/mt', exist_ok=True)
